@@ -4,10 +4,10 @@ package govc
 // type invariants of symbolic values.
 
 import (
-	"os"
 	"fmt"
 	"go/types"
 	"math/big"
+	"os"
 	"strings"
 )
 
